@@ -16,11 +16,12 @@ ScnOK(sc) == /\ sc.op \in Ops
              /\ sc.auxterm \in (IF sc.op \in {"bound", "toggle"} THEN TermsOf(sc.aux, AuxTerms) ELSE {[k |-> "U", t |-> INF]})
              /\ sc.par \in ParamsOf(sc.op, sc.aux)
              /\ sc.dsp \in (IF Disposes THEN 0..MaxT ELSE {}) \cup {INF}
-ASSUME \A n \in 1..Len(Scns) : ScnOK(Scns[n])
+\* (the file is parsed every time Scns is evaluated: bind it once with LET)
+ASSUME LET all == Scns IN \A n \in 1..Len(all) : ScnOK(all[n])
 
-InitFrom == /\ \E n \in 1..Len(Scns) :
-                 /\ op = Scns[n].op /\ par = Scns[n].par /\ src = Scns[n].src /\ term = Scns[n].term
-                 /\ aux = Scns[n].aux /\ auxterm = Scns[n].auxterm /\ dsp = Scns[n].dsp
+InitFrom == /\ LET all == Scns IN \E n \in 1..Len(all) : LET sc == all[n] IN
+                 /\ op = sc.op /\ par = sc.par /\ src = sc.src /\ term = sc.term
+                 /\ aux = sc.aux /\ auxterm = sc.auxterm /\ dsp = sc.dsp
             /\ lazy \in (IF op = "count" THEN BOOLEAN ELSE {FALSE})
             /\ abandon \in (IF auxterm.k = "E" \/ (op \in {"when", "toggle"} /\ (par.fr # 0 \/ par.ck = "E")) THEN BOOLEAN ELSE {FALSE})
             /\ i = 1 /\ a = 1 /\ now = 0 /\ step = 0 /\ arr = <<>>
